@@ -182,9 +182,11 @@ class World:
         cl.pending_hello = False
         cl.open = True
         others_pending = sum(1 for o in self.clients.values() if getattr(o, "pending_hello", False))
-        cl.writer.write(json.dumps({"terminal_width": 80}).encode() + b"\n")
+        width = 80 if c % 2 == 0 else 20 + (37 * (c + len(self.sc["order"]))) % 200
+        cl.writer.write(json.dumps({"terminal_width": width}).encode() + b"\n")
         await self.settle()
         got = cl.take()
+        self.sit["C19.handshake_width." + ("80" if width == 80 else "other")] += 1
         if others_pending:
             self.sit["C19.handshake_while_other_pending"] += 1
         self.note("connect", c, got)
